@@ -57,9 +57,15 @@ class BehavioralTranslatorL2( BehavioralTranslatorL1 ):
 
     # Generate temporary variable declarations
     tmpvars = []
+    names = {}
     for (id_, upblk_id), rtype in s.behavioral.tmpvars[m].items():
       assert isinstance(rtype, rt.Wire), \
         f"temporary variable {id_} in upblk {upblk_id} is not a signal!"
+      # The backends name a temporary <upblk>_<name>
+      assert names.setdefault( f"{upblk_id}_{id_}", (id_, upblk_id) ) == (id_, upblk_id), \
+        f"temporary variable {id_} of upblk {upblk_id} and temporary variable " \
+        f"{names[f'{upblk_id}_{id_}'][0]} of upblk {names[f'{upblk_id}_{id_}'][1]} get the same name " \
+        f"in the translation result! Please rename one of them."
       dtype = rtype.get_dtype()
       tmpvars.append( s.rtlir_tr_behavioral_tmpvar(
         id_,
